@@ -127,10 +127,10 @@ def _cols(mode, allcols, default_idx, subset_idx):
 
 
 def listing_case(h0, h1, h2, sf, ff, header, colmode='all', clock='plain'):
+    U_ = users(True)          # (built before the clock is set up: its constructor re-initialises the clock model)
     rt.determinism(31)
     import contextlib
     with (rt.dst_night() if clock == 'dst' else contextlib.nullcontext()), world.scratch('c15') as d:
-        U_ = users(True)
         be = rt.MemBackend({'config': U_.config})
         src = d / 'src'
         src.mkdir()
